@@ -226,7 +226,7 @@ impl MaxBuilder {
     }
 
     // FontTools maxp <https://github.com/fonttools/fonttools/blob/e8146a6d0725d398cfa110cba683946ee762f8e2/Lib/fontTools/ttLib/tables/_m_a_x_p.py#L53>
-    fn update_composite_limits(&mut self) -> GlyphLimits {
+    fn update_composite_limits(&mut self) -> Result<GlyphLimits, Error> {
         let mut pending = self
             .glyph_info
             .iter()
@@ -234,6 +234,7 @@ impl MaxBuilder {
             .collect::<Vec<_>>();
         let mut overall_max = GlyphLimits::default();
         let mut components: Vec<Option<GlyphLimits>> = Vec::with_capacity(8);
+        let mut out_of_bounds = None;
         while !pending.is_empty() {
             let size_before = pending.len();
             pending.retain(|gid| {
@@ -254,25 +255,47 @@ impl MaxBuilder {
                     return true;
                 }
                 // We know the limits of all child components; a final result is achievable
-                let limit = components.iter().map(|limits| limits.unwrap()).fold(
-                    GlyphLimits::default(),
-                    |acc, e| GlyphLimits {
-                        max_points: acc.max_points + e.max_points,
-                        max_contours: acc.max_contours + e.max_contours,
-                        max_depth: acc.max_depth.max(e.max_depth + 1),
-                    },
-                );
+                // Sum in u32, the totals of a composite need not fit the u16 fields of maxp
+                let (points, contours, depth) = components
+                    .iter()
+                    .map(|limits| limits.unwrap())
+                    .fold((0_u32, 0_u32, 0_u32), |(points, contours, depth), e| {
+                        (
+                            points + e.max_points as u32,
+                            contours + e.max_contours as u32,
+                            depth.max(e.max_depth as u32 + 1),
+                        )
+                    });
+                let (Ok(max_points), Ok(max_contours), Ok(max_depth)) = (
+                    u16::try_from(points),
+                    u16::try_from(contours),
+                    u16::try_from(depth),
+                ) else {
+                    out_of_bounds.get_or_insert((*gid, points, contours, depth));
+                    return true;
+                };
+                let limit = GlyphLimits {
+                    max_points,
+                    max_contours,
+                    max_depth,
+                };
                 self.glyph_info.get_mut(gid).unwrap().limits = Some(limit);
                 overall_max = overall_max.max(limit);
                 false
             });
+            if let Some((gid, points, contours, depth)) = out_of_bounds {
+                return Err(Error::OutOfBounds {
+                    what: format!("composite limits of glyph id {}", gid.to_u16()),
+                    value: format!("{points} points, {contours} contours, depth {depth}"),
+                });
+            }
             assert!(
                 pending.len() < size_before,
                 "Stuck with {size_before} of unknown depth"
             );
         }
 
-        overall_max
+        Ok(overall_max)
     }
 }
 
@@ -400,7 +423,7 @@ impl Work<Context, AnyWorkId, Error> for MetricAndLimitWork {
                 });
 
         // Might as well do maxp while we're here
-        let composite_limits = max_builder.update_composite_limits();
+        let composite_limits = max_builder.update_composite_limits()?;
         let maxp = Maxp {
             num_glyphs: glyph_order.len().try_into().unwrap(),
             // maxp computes it's version based on whether fields are set
